@@ -208,7 +208,8 @@ _TF = ["TransEquiv.GetFIN_eq", "TransEquiv.GetRSV1_eq", "TransEquiv.GetRSV2_eq",
 _TR = ["TransEquiv.readMessage_header_eq", "TransEquiv.readControl_guards_eq"]
 _TC = ["TransEquiv.emitError_status_eq", "TransEquiv.emitError_status_write", "TransEquiv.emitClose_body_eq", "TransEquiv.local_close_body_eq", "TransEquiv.closeViaWrite_split_eq", "TransEquiv.StatusCode_Bytes_eq",
        "TransEquiv.CheckEncoding_eq", "TransEquiv.classify_u16"]
-_TN = ["TransEquiv.setThreshold_eq", "TransEquiv.initServerOption_pd_eq", "TransEquiv.initClientOption_pd_eq"]
+_TN = ["TransEquiv.setThreshold_eq", "TransEquiv.initServerOption_pd_eq", "TransEquiv.initClientOption_pd_eq",
+       "TransEquiv.server_getPD_eq", "TransEquiv.client_getPD_eq"]
 _TL = ["TransEquiv.initServerOption_limits_pos", "TransEquiv.initClientOption_limits_pos"]
 _TP = ["TransEquiv.Parse_eq", "TransEquiv.afterPayload_eq", "TransEquiv.readControl_body_eq", "TransEquiv.emitMessage_eq",
        "TransEquiv.readMessage_payload_eq", "TransEquiv.readMessage_eq_step"]
